@@ -52,15 +52,16 @@ def decFields (tbl : String → Option (FieldCodec R)) : List String → R → D
 
 def tlvType (n : String) : Nat := (Store.tlvTypes.lookup n).getD 0
 
-/-- records a serialiser builds: the regenerated `(type constant, variable)` list of `fn`, each variable
-resolved by `vars` (`none` = the Go code does not append this record for this value) -/
+/-- records a serialiser builds: the regenerated `(type constant, variable)` list of `fn` in source (= append)
+order, each resolved through its type constant by `vars` (`none` = the Go code does not append this record
+for this value) -/
 def tlvRecsOf (fn : String) (vars : String → Option (RecKind × TlvVal)) : List TlvRec :=
-  ((Store.tlvRecords.lookup fn).getD []).filterMap fun (t, v) =>
-    (vars v).map fun (k, x) => ⟨tlvType t, k, x⟩
+  ((Store.tlvRecords.lookup fn).getD []).filterMap fun (t, _) =>
+    (vars t).map fun (k, x) => ⟨tlvType t, k, x⟩
 
 /-- the record set a deserialiser passes to `tlv.NewStream` -/
 def tlvKnownOf (fn : String) (kinds : String → Option RecKind) : List (Nat × RecKind) :=
-  ((Store.tlvRecords.lookup fn).getD []).filterMap fun (t, v) => (kinds v).map fun k => (tlvType t, k)
+  ((Store.tlvRecords.lookup fn).getD []).filterMap fun (t, _) => (kinds t).map fun k => (tlvType t, k)
 
 /-! ### account -/
 
@@ -119,11 +120,11 @@ def storesLatestTxSer (state : Nat) : Bool := !(Store.noLatestTx_serializeAccoun
 def storesLatestTxDe (state : Nat) : Bool := !(Store.noLatestTx_deserializeAccount.map (·.2)).contains state
 
 def acctTlvVars (a : Account) : String → Option (RecKind × TlvVal)
-  | "version" => some (.u8, .num (a.version % 256))     -- `version := uint8(a.Version)`
+  | "accountVersionType" => some (.u8, .num (a.version % 256))     -- `version := uint8(a.Version)`
   | _ => none
 
 def acctTlvKinds : String → Option RecKind
-  | "version" => some .u8
+  | "accountVersionType" => some .u8
   | _ => none
 
 /-- `serializeAccountTlvData`: the stream length as uint32, then the stream -/
